@@ -31,8 +31,13 @@ ASSUMPTIONS = [
 OUTSIDE = ["pipelines longer than 4 nodes", "timestamp truthfulness (C07)", "run-space lifecycle records in the JSONL driver (C09 uses an in-memory driver)"]
 
 KINDS = ["processor-exception", "unresolvable-parameter", "type-gate", "undeclared-context-write", "construction:unknown-parameter", "construction:probe-without-context-key", "abort:BaseException"]
-SPECIALS = [None, 1.5, float("inf"), float("-inf"), float("nan")]
-DETAILS = ["hash", "repr", "hash,context", "all"]
+# value classes that stress record serialisation: index 0 = no special parameter; non-finite floats; strings that are awkward
+# for JSON / UTF-8 (non-ASCII, control characters and quotes, a lone surrogate as produced by os.fsdecode on undecodable
+# file names); an int beyond 64 bits; values json cannot encode natively (bytes, set); a nested container holding a nan
+SPECIALS = [None, 1.5, float("inf"), float("-inf"), float("nan"), "caf\u00e9 \u00b5m", "q\"\\\x00\x1f\n", "calib_\udcff.bin", 2 ** 70, b"\xff\x00", frozenset([1]), {"k": [1, {"z": float("nan")}]}]
+NOT_JSON = (9, 10)  # indices of SPECIALS that json cannot encode natively (bytes, frozenset)
+# every distinct option set the driver can be configured with (3 flags; the empty set is coerced to hash)
+DETAILS = ["hash", "repr", "context", "hash,repr", "hash,context", "repr,context", "all"]
 
 _SCR: Dict[str, str] = {}
 
@@ -243,6 +248,8 @@ def _make_p1(param):
             assume(kind == 0)
         if sidx == 0:
             assume(not in_cfg)
+        if sidx in NOT_JSON:
+            assume(not in_cfg)  # node configuration is JSON-like by construction (YAML); such values can only arrive through the context
         if source_first and pos == 0:
             assume(kind in (4, 5))  # a source is never fed: runtime fault kinds need a data node
         cpos = next(i for i in range(-1, n) if pos == i)
@@ -303,7 +310,7 @@ def obligations(tier: str) -> List[Ob]:
     params = [(n, d, fm, sf) for n in lens for d in DETAILS for fm in (True, False) for sf in (False, True)]
     return [
         Ob("C06.P1", _make_p1, _replay_p1, params=params, budget=600, per_path=120,
-           bound="per (length n in %s, detail level in {hash, repr, hash+context, all}, file/directory output, source-first or not): fault position in [-1, n-1], fault kind over 7 kinds, special float value class over {none, finite, inf, -inf, nan} reaching a traced parameter from the context or from the node configuration (flag) -- all four symbolic; values concrete" % (list(lens),),
+           bound="per (length n in %s, detail flags: all 7 non-empty subsets of {hash, repr, context}, file/directory output, source-first or not): fault position in [-1, n-1], fault kind over 7 kinds, special value class over {none, finite float, inf, -inf, nan, non-ASCII str, control-character str, lone-surrogate str, 70-bit int, bytes, frozenset, nested container with nan} reaching a traced parameter from the context or from the node configuration (flag) -- all four symbolic; values concrete" % (list(lens),),
            targets=["semantiva/execution/orchestrator/orchestrator.py:SemantivaOrchestrator.execute", "semantiva/trace/drivers/jsonl.py:JsonlTraceDriver.on_pipeline_start", "semantiva/trace/drivers/jsonl.py:JsonlTraceDriver.on_node_event", "semantiva/trace/drivers/jsonl.py:JsonlTraceDriver.on_pipeline_end", "semantiva/execution/orchestrator/orchestrator.py:SemantivaOrchestrator._instantiate_nodes"], stubs=list(STUBS)),
         Ob("C06.U1", _make_u1, lambda p, a: C01._replay_simple(_u1)(p, dict(a, nn=p[0], ne=p[1])), params=[(nn, ne) for nn in (1, 2, 3, 4) for ne in (0, 1, 2, 3) if not (nn == 4 and ne == 3)], budget=300, bound="<= 4 node ids, <= 3 edges with symbolic endpoints (4 nodes: <= 2 edges)", targets=["semantiva/pipeline/graph_builder.py:compute_upstream_map"]),
     ]
